@@ -56,6 +56,9 @@ def queries(ctx, m, nodes):
                 if ids[b] + 1 < ids[b + 1]:
                     ws.append((ids[a], ids[b] + 1, "inside"))  # end in a gap between ids
             ws.append((ids[0], ids[-1], "full"))
+            if ids[0] < 0 <= ids[-1]:
+                ws.append((0, ids[-1], "start=0"))         # an explicit start that happens to be falsy
+                ws.append((0, ids[-1], "start=0"))
             w = rng.choice(ws)
             out.append((u, v, w[0], w[1], w[2], 1 if rng.random() < 0.8 else 0.5))
     return out
